@@ -534,6 +534,8 @@ class FactEngine(object):
                 elif n.kind == 'switch' and lab in ('default', 'nomatch'):
                     new = self._switch_default_facts(n)
                 if new:
+                    if self._path_infeasible(n, lab, fs, trail):      # (facts still holding here, not stale ones)
+                        continue        # the test names a bool local whose value, computed earlier on this very path, is the opposite
                     f2 = frozenset(fs | new)
                     e2 = frozenset(ever | new)
                 step(m, f2, e2, onpath | {m.id}, trail)
@@ -559,6 +561,90 @@ class FactEngine(object):
                 if v is not None:
                     out.add(canon('!=', k, 'n:%d' % v))
         return out
+
+    def _path_infeasible(self, n, lab, ever, trail):
+        """Branching on a bool local B: if B was initialised on this path from a boolean expression whose operands have not
+        been written since, and the facts gathered while that expression was evaluated refute every way it can have the
+        value the branch asserts, the path does not exist.  (Only used with nodes=True trails or when the declaration is
+        known to precede; otherwise nothing is pruned.)"""
+        if n.kind != 'cond' or n.ast is None or lab not in ('T', 'F'):
+            return False
+        x = peel(n.ast)
+        neg = False
+        while x is not None and x.get('kind') == 'UnaryOperator' and x.get('opcode') == '!':
+            x = peel(kids(x)[0])
+            neg = not neg
+        if x is None or x.get('kind') != 'DeclRefExpr':
+            return False
+        i = (x.get('referencedDecl') or {}).get('id')
+        d = getattr(self, '_decl_node', {}).get(i)
+        if d is None or d.get('kind') != 'VarDecl' or (dtype(d) or '').replace('const ', '').strip() != 'bool':
+            return False
+        ks = [c for c in kids(d) if not c.get('kind', '').endswith('Attr')]
+        if not ks:
+            return False
+        init = ks[-1]
+        if not self._unwritten_between_vars(d, n, init, extra=[i]):
+            return False
+        want = (lab == 'T') != neg
+        cases = self.bool_cases(init)
+        if any(not isinstance(v, bool) for (_, v) in cases):
+            return False
+        for (fs, v) in cases:
+            if v is not want:
+                continue
+            if not any(self._contradicts(f_, ever) for f_ in fs):
+                return False        # this way of getting the asserted value is compatible with the path
+        return True
+
+    @staticmethod
+    def _contradicts(f, facts):
+        op, a, b = f
+        for (o2, a2, b2) in facts:
+            if (a2, b2) == (a, b):
+                if (op, o2) in (('==', '!='), ('!=', '=='), ('<', '=='), ('==', '<'), ('<', '<='), ('<=', '<')) and not (
+                        (op, o2) in (('<', '<='), ('<=', '<'))):
+                    return True
+            if (a2, b2) == (b, a):
+                if (op, o2) in (('<', '<'), ('<', '<='), ('<=', '<'), ('<', '=='), ('==', '<')):
+                    return True
+        return False
+
+    def _unwritten_between_vars(self, decl, node, expr, extra=()):
+        roots = set(extra)
+        for y in walk(expr):
+            if y.get('kind') == 'DeclRefExpr' and (y.get('referencedDecl') or {}).get('kind') in ('VarDecl', 'ParmVarDecl'):
+                roots.add((y.get('referencedDecl') or {}).get('id'))
+        starts = self.cfg.nodes_for(decl)
+        if not starts:
+            return False
+        wnodes = set()
+        for r in roots:
+            for w in self._write_sites.get(r, ()):
+                for nn in self.cfg.nodes_for(w):
+                    wnodes.add(nn.id)
+        fwd = set()
+        stack = [m for s_ in starts for (m, _) in s_.succs]
+        while stack:
+            nn = stack.pop()
+            if nn.id in fwd:
+                continue
+            fwd.add(nn.id)
+            if nn is node:
+                continue
+            stack.extend(m for (m, _) in nn.succs)
+        if node.id not in fwd:
+            return False
+        bwd = set()
+        stack = [node]
+        while stack:
+            nn = stack.pop()
+            if nn.id in bwd:
+                continue
+            bwd.add(nn.id)
+            stack.extend(p for (p, _) in nn.preds if p.id in fwd)
+        between = (fwd & bwd) - {node.id}
+        return not (between & wnodes)
 
     # -- queries
     def facts_at(self, node):
